@@ -632,11 +632,134 @@ Qed.
 (** * The heap wrappers (through the proved heap specifications) *)
 (** the heap invariant the engine maintains; clients treat it as opaque and go through the
     [heap*_spec] lemmas below *)
-Definition hinv (w : Heap.t) : Prop := HeapSpec.inv w.
+(* the minimum cursor is exact: its block is not empty (needed for [Heap.sanity]) *)
+Definition heap_tight (w : Heap.t) : Prop :=
+  0 < Heap.cnt w -> Heap.bucket w (Z.to_nat (Heap.minH w)) <> [].
+Definition hinv (w : Heap.t) : Prop := HeapSpec.inv w /\ heap_tight w.
 Lemma hinv_inv w : hinv w -> HeapSpec.inv w.
-Proof. intros H; exact H. Qed.
+Proof. intros H; apply H. Qed.
+Lemma hinv_tight w : hinv w -> heap_tight w.
+Proof. intros H; apply H. Qed.
 Lemma hinv_empty k : hinv (Heap.empty k).
-Proof. apply heap_inv_empty. Qed.
+Proof. split; [apply heap_inv_empty|]. intros H. cbn in H. lia. Qed.
+
+Lemma in_own_bucket w m : HeapSpec.inv w -> m ∈ Heap.ids w -> m ∈ Heap.bucket w (Z.to_nat (Heap.hinOf w m)).
+Proof.
+  intros I [x Hx]%elem_ids. rewrite (hinOf_bucket w m x I Hx), Nat2Z.id. exact Hx.
+Qed.
+
+Lemma bucket_nonempty_of w m x : HeapSpec.inv w -> m ∈ Heap.ids w -> Heap.hinOf w m = x ->
+  Heap.bucket w (Z.to_nat x) <> [].
+Proof. intros I Hm <- E. pose proof (in_own_bucket w m I Hm) as H. rewrite E in H. inversion H. Qed.
+
+Lemma heap_add_tight w n h w' :
+  HeapSpec.inv w -> heap_tight w -> Heap.mem w n = false -> 0 <= h -> Heap.add w n h = Ok w' -> heap_tight w'.
+Proof.
+  intros I T Hm Hh H. destruct (heap_add_spec w n h I Hm Hh) as (w2 & E & I' & P & Hin).
+  rewrite H in E. injection E as <-.
+  assert (Emin : Heap.minH w' = if Heap.cnt w =? 0 then h else Z.min (Heap.minH w) h).
+  { unfold Heap.add in H. destruct (h <? 0); [discriminate|].
+    destruct (Heap.cnt w =? 0); injection H as <-; reflexivity. }
+  intros _. rewrite Emin.
+  assert (Hn : n ∈ Heap.ids w') by (rewrite P; left).
+  assert (Hnh : Heap.bucket w' (Z.to_nat h) <> []).
+  { apply (bucket_nonempty_of w' n h I' Hn). rewrite Hin, decide_True by reflexivity. reflexivity. }
+  destruct (Z.eqb_spec (Heap.cnt w) 0) as [E0|E0]; [exact Hnh|].
+  destruct (Z.min_spec (Heap.minH w) h) as [[Hlt ->]|[Hge ->]]; [|exact Hnh].
+  pose proof (cnt_nonneg w I) as Hc.
+  destruct (Heap.bucket w (Z.to_nat (Heap.minH w))) as [|m b] eqn:Eb; [exfalso; apply T; [lia|exact Eb]|].
+  assert (Hmb : m ∈ Heap.bucket w (Z.to_nat (Heap.minH w))) by (rewrite Eb; left).
+  assert (Hmi : m ∈ Heap.ids w) by (apply elem_ids; eauto).
+  destruct (mem_false_inv w n I Hm) as [Hnin _].
+  destruct (inv_cursor w I ltac:(lia)) as (C1 & _).
+  apply (bucket_nonempty_of w' m (Heap.minH w) I').
+  - rewrite P. right. exact Hmi.
+  - rewrite Hin, decide_False by (intros ->; contradiction).
+    rewrite (hinOf_bucket w m _ I Hmb). lia.
+Qed.
+
+Lemma nextMin_nonempty bs c from :
+  0 < c -> (exists y, (Z.to_nat (Z.max 0 from) <= y)%nat /\ bk bs y <> []) ->
+  bk bs (Z.to_nat (nextMinFrom bs c from)) <> [].
+Proof.
+  intros Hc (y & Hy1 & Hy2). unfold nextMinFrom. destruct (Z.eqb_spec c 0); [lia|].
+  pose proof (scan_drop_spec bs (Z.to_nat (Z.max 0 from))) as S.
+  destruct (scan_from _ _) as [x|].
+  - destruct S as (_ & S2 & _). rewrite Nat2Z.id. exact S2.
+  - exfalso. apply Hy2, S, Hy1.
+Qed.
+
+Lemma heap_remove_tight w n w' :
+  HeapSpec.inv w -> heap_tight w -> Heap.mem w n = true -> Heap.remove w n = Ok w' -> heap_tight w'.
+Proof.
+  intros I T Hm H. destruct (heap_remove_spec w n I Hm) as (w2 & E & I' & P & Hin).
+  rewrite H in E. injection E as <-.
+  destruct (mem_true_inv w n I Hm) as (h & Hh & _ & HhinOf & Hb).
+  unfold Heap.remove in H. rewrite HhinOf in H. destruct (Z.ltb_spec h 0); [lia|].
+  set (hn := Z.to_nat h) in *.
+  destruct (Heap.buckets w !! hn) as [b|] eqn:Eb; [|discriminate].
+  destruct (bool_decide (n ∈ b)); [|discriminate].
+  set (b' := remove_first n b) in *. set (bs := <[hn := b']> (Heap.buckets w)) in *.
+  injection H as <-. intros Hpos. cbn [Heap.cnt] in Hpos. cbn [Heap.minH Heap.bucket Heap.buckets].
+  assert (Hlen : (hn < length (Heap.buckets w))%nat) by (eapply lookup_lt_Some; eauto).
+  assert (Hbk : forall y, bk bs y = if decide (y = hn) then b' else Heap.bucket w y).
+  { intros y. unfold bs. apply (bk_insert _ _ _ _ Hlen). }
+  fold (bk bs (Z.to_nat (if (h =? Heap.minH w) && bool_decide (b' = []) then nextMinFrom bs (Heap.cnt w - 1) (h + 1) else Heap.minH w))).
+  destruct (inv_cursor w I ltac:(lia)) as (C1 & C2 & _).
+  assert (Hnonempty : 0 < Heap.cnt w - 1 -> exists y, bk bs y <> []).
+  { intros Hp. pose proof (inv_cnt _ I') as Hcnt. cbn [Heap.cnt Heap.ids Heap.buckets] in Hcnt.
+    unfold Heap.ids in Hcnt. cbn [Heap.buckets] in Hcnt.
+    destruct (concat bs) as [|m l] eqn:Ecc; [simpl in Hcnt; lia|].
+    assert (Hmc : m ∈ concat bs) by (rewrite Ecc; left).
+    apply elem_of_concat_bk in Hmc as [y Hy]. exists y. intros E. rewrite E in Hy. inversion Hy. }
+  destruct ((h =? Heap.minH w) && bool_decide (b' = [])) eqn:Ec.
+  - apply andb_true_iff in Ec as [E1 E2]. apply Z.eqb_eq in E1. apply bool_decide_eq_true in E2.
+    change (bk bs (Z.to_nat (nextMinFrom bs (Heap.cnt w - 1) (h + 1))) <> []).
+    apply nextMin_nonempty; [exact Hpos|].
+    destruct (Hnonempty Hpos) as [y Hy]. exists y. split; [|exact Hy].
+    rewrite Hbk in Hy. destruct (decide (y = hn)) as [->|Hyn]; [congruence|].
+    specialize (C2 y Hy). unfold hn in *. lia.
+  - change (bk bs (Z.to_nat (Heap.minH w)) <> []).
+    rewrite Hbk. destruct (decide (Z.to_nat (Heap.minH w) = hn)) as [Eq|Ne].
+    + apply andb_false_iff in Ec as [Ec|Ec].
+      * apply Z.eqb_neq in Ec. unfold hn in Eq. lia.
+      * apply bool_decide_eq_false in Ec. exact Ec.
+    + apply T. lia.
+Qed.
+
+Lemma heap_removeMin_tight w n w' :
+  HeapSpec.inv w -> heap_tight w -> Heap.removeMin w = Some (n, w') -> heap_tight w'.
+Proof.
+  intros I T H. destruct (heap_removeMin_spec w n w' I H) as (_ & I' & P & Hin).
+  unfold Heap.removeMin in H. destruct (Z.leb_spec (Heap.cnt w) 0) as [|Hc]; [discriminate|].
+  destruct (inv_cursor w I Hc) as (C1 & C2 & _).
+  pose proof (scan_drop_spec (Heap.buckets w) (Z.to_nat (Heap.minH w))) as S.
+  destruct (scan_from _ _) as [x|]; [|discriminate]. destruct S as (S1 & S2 & S3).
+  destruct (Z.of_nat x <=? Heap.maxH w); [|discriminate].
+  destruct (Heap.bucket w x) as [|n0 b'] eqn:Eb; [discriminate|].
+  set (bs := <[x := b']> (Heap.buckets w)) in *.
+  injection H as -> <-. intros Hpos. cbn [Heap.cnt] in Hpos. cbn [Heap.minH Heap.bucket Heap.buckets].
+  destruct (bk_nonempty_lookup _ _ S2) as (b0 & Elk & _).
+  assert (Hlen : (x < length (Heap.buckets w))%nat) by (eapply lookup_lt_Some; eauto).
+  assert (Hbk : forall y, bk bs y = if decide (y = x) then b' else Heap.bucket w y).
+  { intros y. unfold bs. apply (bk_insert _ _ _ _ Hlen). }
+  fold (bk bs (Z.to_nat (match b' with [] => nextMinFrom bs (Heap.cnt w - 1) (Z.of_nat x + 1) | _ :: _ => Z.of_nat x end))).
+  assert (Hnonempty : 0 < Heap.cnt w - 1 -> exists y, bk bs y <> []).
+  { intros Hp. pose proof (inv_cnt _ I') as Hcnt. unfold Heap.ids in Hcnt. cbn [Heap.cnt Heap.buckets] in Hcnt.
+    destruct (concat bs) as [|m l] eqn:Ecc; [simpl in Hcnt; lia|].
+    assert (Hmc : m ∈ concat bs) by (rewrite Ecc; left).
+    apply elem_of_concat_bk in Hmc as [y Hy]. exists y. intros E. rewrite E in Hy. inversion Hy. }
+  destruct b' as [|n1 b''].
+  - change (bk bs (Z.to_nat (nextMinFrom bs (Heap.cnt w - 1) (Z.of_nat x + 1))) <> []).
+    apply nextMin_nonempty; [exact Hpos|].
+    destruct (Hnonempty Hpos) as [y Hy]. exists y. split; [|exact Hy].
+    rewrite Hbk in Hy. destruct (decide (y = x)) as [->|Hyn]; [congruence|].
+    assert (x <= y)%nat; [|lia].
+    destruct (decide (x <= y)%nat) as [|Hn]; [assumption|]. exfalso. apply Hy.
+    specialize (C2 y Hy). apply S3. lia.
+  - change (bk bs (Z.to_nat (Z.of_nat x)) <> []).
+    rewrite Nat2Z.id, Hbk, decide_True by reflexivity. discriminate.
+Qed.
 
 (** [s'] differs from [s] at most in the heap *)
 Definition only_heap (s s' : state) : Prop := s' = s <| heap := heap s' |>.
@@ -674,7 +797,7 @@ End only_heap.
 
 Lemma inHeap_iff s n : hinv (heap s) -> (inHeap s n = true <-> n ∈ Heap.ids (heap s)).
 Proof.
-  intros I. unfold inHeap. split.
+  intros [I _]. unfold inHeap. split.
   - intros Hm. destruct (mem_true_inv _ _ I Hm) as (h & Hh & _ & _ & Hb).
     apply elem_ids. eauto.
   - intros Hin. destruct (Heap.mem (heap s) n) eqn:E; [reflexivity|].
@@ -688,12 +811,12 @@ Qed.
 
 Lemma hinOf_nonneg w n : hinv w -> n ∈ Heap.ids w -> 0 <= Heap.hinOf w n.
 Proof.
-  intros I [x Hx]%elem_ids. rewrite (hinOf_bucket w n x I Hx). lia.
+  intros [I _] [x Hx]%elem_ids. rewrite (hinOf_bucket w n x I Hx). lia.
 Qed.
 
 Lemma hinOf_notin w n : hinv w -> n ∉ Heap.ids w -> Heap.hinOf w n = unset.
 Proof.
-  intros I Hn. destruct (Heap.mem w n) eqn:E.
+  intros [I _] Hn. destruct (Heap.mem w n) eqn:E.
   - destruct (mem_true_inv _ _ I E) as (h & Hh & _ & _ & Hb). exfalso. apply Hn, elem_ids. eauto.
   - unfold Heap.mem in E. apply bool_decide_eq_false in E.
     destruct (decide (Heap.hinOf w n = unset)); [assumption|contradiction].
@@ -727,15 +850,16 @@ Lemma heapAdd_spec s n s' :
   only_heap s s' /\ hinv (heap s') /\ Heap.ids (heap s') ≡ₚ n :: Heap.ids (heap s) /\
   forall m, Heap.hinOf (heap s') m = if decide (m = n) then height (nd s n) else Heap.hinOf (heap s) m.
 Proof.
-  intros I Hm Hh H. apply heapAdd_inv in H as (w & E & ->).
+  intros [I T] Hm Hh H. apply heapAdd_inv in H as (w & E & ->).
   destruct (heap_add_spec _ _ _ I Hm Hh) as (w' & E' & I' & P & Hin).
-  rewrite E in E'. injection E' as <-. split; [apply only_heap_set|]. auto.
+  rewrite E in E'. injection E' as <-. split; [apply only_heap_set|].
+  split; [split; [exact I'|apply (heap_add_tight _ _ _ _ I T Hm Hh E)]|auto].
 Qed.
 
 Lemma heapAdd_total s n :
   hinv (heap s) -> inHeap s n = false -> 0 <= height (nd s n) -> exists s', heapAdd s n = Ok s'.
 Proof.
-  intros I Hm Hh. destruct (heap_add_spec _ _ _ I Hm Hh) as (w' & E' & _).
+  intros [I _] Hm Hh. destruct (heap_add_spec _ _ _ I Hm Hh) as (w' & E' & _).
   unfold heapAdd. rewrite E'. simpl. eauto.
 Qed.
 
@@ -772,15 +896,16 @@ Lemma heapRemove_spec s n s' :
   only_heap s s' /\ hinv (heap s') /\ Heap.ids (heap s) ≡ₚ n :: Heap.ids (heap s') /\
   forall m, Heap.hinOf (heap s') m = if decide (m = n) then unset else Heap.hinOf (heap s) m.
 Proof.
-  intros I Hm H. apply heapRemove_inv in H as (w & E & ->).
+  intros [I T] Hm H. apply heapRemove_inv in H as (w & E & ->).
   destruct (heap_remove_spec _ _ I Hm) as (w' & E' & I' & P & Hin).
-  rewrite E in E'. injection E' as <-. split; [apply only_heap_set|]. auto.
+  rewrite E in E'. injection E' as <-. split; [apply only_heap_set|].
+  split; [split; [exact I'|apply (heap_remove_tight _ _ _ I T Hm E)]|auto].
 Qed.
 
 Lemma heapRemove_total s n :
   hinv (heap s) -> inHeap s n = true -> exists s', heapRemove s n = Ok s'.
 Proof.
-  intros I Hm. destruct (heap_remove_spec _ _ I Hm) as (w' & E' & _).
+  intros [I _] Hm. destruct (heap_remove_spec _ _ I Hm) as (w' & E' & _).
   unfold heapRemove. rewrite E'. simpl. eauto.
 Qed.
 
@@ -789,7 +914,7 @@ Lemma heapRemove_ids s n s' m :
   (m ∈ Heap.ids (heap s') <-> m ∈ Heap.ids (heap s) /\ m <> n).
 Proof.
   intros I Hm H. destruct (heapRemove_spec s n s' I Hm H) as (_ & I' & P & _).
-  pose proof (inv_nodup _ I) as Hnd. rewrite P in Hnd. apply NoDup_cons_1_1 in Hnd as Hnin.
+  pose proof (inv_nodup _ (hinv_inv _ I)) as Hnd. rewrite P in Hnd. apply NoDup_cons_1_1 in Hnd as Hnin.
   rewrite P, elem_of_cons. split.
   - intros Hin. split; [auto|]. intros ->. contradiction.
   - intros [[->|Hin] Hne]; [congruence|exact Hin].
@@ -800,15 +925,21 @@ Lemma heapFix_spec s n s' :
   only_heap s s' /\ hinv (heap s') /\ Heap.ids (heap s') ≡ₚ Heap.ids (heap s) /\
   forall m, Heap.hinOf (heap s') m = if decide (m = n) then height (nd s n) else Heap.hinOf (heap s) m.
 Proof.
-  intros I Hm Hh H. apply heapFix_inv in H as (w & E & ->).
+  intros [I T] Hm Hh H. apply heapFix_inv in H as (w & E & ->).
   destruct (heap_fix_spec _ _ _ I Hm Hh) as (w' & E' & I' & P & Hin).
-  rewrite E in E'. injection E' as <-. split; [apply only_heap_set|]. auto.
+  rewrite E in E'. injection E' as <-. split; [apply only_heap_set|].
+  split; [split; [exact I'|]|auto].
+  unfold Heap.fix_ in E. apply rbind_ok in E as (w1 & E1 & E2).
+  destruct (heap_remove_spec _ _ I Hm) as (w1' & E1' & I1 & P1 & H1). rewrite E1 in E1'. injection E1' as <-.
+  assert (Hm1 : Heap.mem w1 n = false).
+  { unfold Heap.mem. apply bool_decide_eq_false. rewrite H1, decide_True by reflexivity. auto. }
+  apply (heap_add_tight w1 n _ w I1 (heap_remove_tight _ _ _ I T Hm E1) Hm1 Hh E2).
 Qed.
 
 Lemma heapFix_total s n :
   hinv (heap s) -> inHeap s n = true -> 0 <= height (nd s n) -> exists s', heapFix s n = Ok s'.
 Proof.
-  intros I Hm Hh. destruct (heap_fix_spec _ _ _ I Hm Hh) as (w' & E' & _).
+  intros [I _] Hm Hh. destruct (heap_fix_spec _ _ _ I Hm Hh) as (w' & E' & _).
   unfold heapFix. rewrite E'. simpl. eauto.
 Qed.
 
@@ -1255,5 +1386,6 @@ Lemma removeMin_spec w n w' :
   hinv w' /\ Heap.ids w ≡ₚ n :: Heap.ids w' /\
   forall m, Heap.hinOf w' m = if decide (m = n) then unset else Heap.hinOf w m.
 Proof.
-  intros I H. destruct (heap_removeMin_spec w n w' I H) as (_ & I' & P & Hin). auto.
+  intros [I T] H. destruct (heap_removeMin_spec w n w' I H) as (_ & I' & P & Hin).
+  split; [split; [exact I'|apply (heap_removeMin_tight w n w' I T H)]|auto].
 Qed.
